@@ -48,26 +48,38 @@ Theorem C03_shape_matches_source :
   decode_driver c03_driver_steps = Some modelled_driver_shape /\
   c03_cli_returns_driver_result = true /\
   c03_main_exit_on_err <> 0%N /\
-  report_ops_are_pushes c03_report_message_ops = true.
+  report_ops_are_pushes c03_report_message_ops = true /\
+  c03_print_line_reports = true /\ c03_driver_println_free = true /\ c03_print_all_ignores_write_errors = true.
 Proof. exact tables_match_source. Qed.
 
 Theorem C03_source_shape_ok : forall sh,
   decode_shape c03_assemble_pre c03_assemble_loop c03_assemble_post c03_err_arm = Some sh -> shape_ok sh = true.
 Proof. exact source_shape_ok. Qed.
 
-(* ---- the driver: drive = Ok => exit 0, no error, every group acted exactly once in order; drive = Err => exit status non-zero,
+(* out_ok: whether the standard output can be written (permanent fault when false): every print goes through print_line(..)? .
+   ---- the driver: drive = Ok => exit 0, no error, every group acted exactly once in order; drive = Err => exit status non-zero,
    an error in the report, and nothing was printed or written unless the error is an output that could not be written;
    anything is printed or written only after assemble returned an output with an error-free report *)
-Theorem C03_driver : forall St (sem : pkind -> St -> report -> option St * report) loop_done (init : command -> St) fuel gs wr c,
+Theorem C03_driver : forall St (sem : pkind -> St -> report -> option St * report) loop_done (init : command -> St) fuel gs wr out_ok c,
   obligations St sem -> parse_command gs = COk c ->
-  driver_statement gs c wr
-    (drive modelled_driver_shape gs wr (fun c r => assemble St sem loop_done modelled_shape fuel (init c) r)).
+  driver_statement gs c wr out_ok
+    (drive modelled_driver_shape gs wr out_ok (fun c r => assemble St sem loop_done modelled_shape fuel (init c) r)).
 Proof. exact driver_spec. Qed.
 
-Theorem C03_driver_bad_command : forall gs wr asm e, parse_command gs = CErr e ->
-  let out := drive modelled_driver_shape gs wr asm in
+Theorem C03_driver_bad_command : forall gs wr out_ok asm e, parse_command gs = CErr e ->
+  let out := drive modelled_driver_shape gs wr out_ok asm in
   d_result out = DrErr /\ d_acts out = [] /\ d_failed_write out = None /\ has_error (d_report out) = true /\ d_asm out = None.
 Proof. exact driver_bad_command. Qed.
+
+(* regression guard for F64: with println! in place of print_line(..)? an unwritable standard output is a PANIC in every printing
+   path (--help, the progress lines, -q -p); the repaired shape ends in Err with an error in the report and nothing done *)
+Theorem C03_println_driver_refuted :
+  d_result (assemble_with_command println_driver_shape (ex_command false false true) (fun _ => true) false ex_asm_ok []) = DrPanic /\
+  d_result (assemble_with_command println_driver_shape (ex_command false false false) (fun _ => true) false ex_asm_ok []) = DrPanic /\
+  d_result (assemble_with_command println_driver_shape (ex_command true true false) (fun _ => true) false ex_asm_ok []) = DrPanic /\
+  (forall q p h, let out := assemble_with_command modelled_driver_shape (ex_command q p h) (fun _ => true) false ex_asm_ok [] in
+     (q = false \/ p = true \/ h = true) -> d_result out = DrErr /\ has_error (d_report out) = true /\ d_acts out = [] /\ d_failed_print out = true).
+Proof. exact println_driver_refuted. Qed.
 
 (* ---- regression guard: the PINNED shape (output stored before the unused-define check, no stop_at_errors after resolution)
    does not pass the check, and the statement of C03_ok_clean is FALSE for it: two instantiations satisfying every obligation
@@ -94,7 +106,8 @@ Proof. exact note_wrapped_escapes. Qed.
 (* a driver that drops the `?` after write_bytes would report an error and still return Ok *)
 Theorem C03_driver_without_try_refuted :
   exists c wr asm, (forall r, asm r = AReturn {| r_ast := true; r_decls := true; r_defs := true; r_iter := true; r_output := true; r_error := false |} r) /\
-    let out := assemble_with_command [DHelp; DVersion; DNoInput; DAssemble; DNeedOutput; DUnwrap FDecls; DUnwrap FDefs; DUnwrap FIter; DGroups false; DReturnOk] c wr asm [] in
+    let out := assemble_with_command [DHelp true; DVersion true; DNoInput; DProgress true; DAssemble; DNeedOutput; DUnwrap FDecls; DUnwrap FDefs; DUnwrap FIter;
+                                      DGroups true false; DResolved true; DReturnOk] c wr true asm [] in
     d_result out = DrOk /\ has_error (d_report out) = true.
 Proof. exact driver_without_try_refuted. Qed.
 
